@@ -1025,6 +1025,96 @@ def all_cases(quick):
     return cases
 
 
+# ---------------------------------------------------------------------------------------------- deferred consumer sink
+class _StopDrain(BaseException):
+    pass
+
+
+def _deferred_chunk(acc, keys):
+    """The consumer's default event sink answers at once and hands the notification to a worker thread. Here the real
+    worker loop (_read_queue) is run synchronously after every request: a request that is answered but then kills the
+    worker (an exception escaping the loop) silently stops all further notification processing and, once the bounded queue
+    is full, blocks every later request - so no input may make the loop end."""
+    import queue as _q
+    T = target()
+    w = world.World()
+    p = w.mk_provider()
+    c = w.mk_consumer(p, deferred=True)
+    w.mk_consumer_mdib(c)
+    disp = None
+    for obj in (getattr(c, '_services_dispatcher', None), getattr(c, '_dispatcher', None)):
+        if obj is not None and hasattr(obj, '_read_queue'):
+            disp = obj
+    if disp is None:
+        # the deferred dispatchers are registered per subscription path: collect all of them
+        disps = [d for d in _find_deferred(c) if hasattr(d, '_read_queue')]
+    else:
+        disps = [disp]
+    if not disps:
+        from mcx.runner import HarnessError
+        raise HarnessError('C13 deferred part: no deferred dispatcher found in the consumer')
+
+    class DrainQueue(_q.Queue):
+        def get(self, block=True, timeout=None):  # noqa: ARG002
+            if self.empty():
+                raise _StopDrain
+            return super().get(False)
+
+    for d in disps:
+        old = d._queue
+        d._queue = DrainQueue(old.maxsize)
+    base = '/' + c.path_prefix
+    for k in keys:
+        entry = T.corpus[k]
+        own = entry['path']
+        others = sorted({T.corpus[o]['path'] for o in T.corpus if o.startswith('consumer') and T.corpus[o]['path'] != own})
+        for pth in [own, base, base + '/', base + '/unknown', own + '/extra'] + others:
+            acc.add('states')
+            acc.transition()
+            acc.evals()
+            acc.trace()
+            tag = 'own' if pth == own else ('base' if pth.rstrip('/') == base else 'other-subscription' if pth in others else 'unknown')
+            try:
+                status, _reason, _body = c._msg_converter.do_post(world.mk_headers({'Host': '10.0.0.2:9000'}), pth, ('10.0.0.1', 40000),
+                                                                   entry['data'])
+            except Exception as ex:  # noqa: BLE001
+                acc.violation(f'deferred/message-converter-raises/{k}/{tag}', {'path': pth, 'error': repr(ex)[:200]},
+                              case={'kind': 'deferred', 'req': k})
+                continue
+            acc.outcome(f'deferred:{tag}:{status}')
+            for d in disps:
+                try:
+                    d._read_queue()
+                except _StopDrain:
+                    pass
+                except Exception as ex:  # noqa: BLE001
+                    acc.violation(f'deferred/notification-worker-dies/{type(ex).__name__}/{k.split(":")[-1]}/{tag}',
+                                  {'request': k, 'path': pth, 'answered_with': status, 'error': repr(ex)[:200]},
+                                  case={'kind': 'deferred', 'req': k})
+    w.close()
+
+
+def _find_deferred(c):
+    from sdc11073.consumer.request_handler_deferred import DispatchKeyRegistryDeferred
+    seen, out, todo = set(), [], [c]
+    while todo and len(seen) < 4000:
+        o = todo.pop()
+        if id(o) in seen:
+            continue
+        seen.add(id(o))
+        if isinstance(o, DispatchKeyRegistryDeferred):
+            out.append(o)
+            continue
+        for v in (list(vars(o).values()) if hasattr(o, '__dict__') else []):
+            if isinstance(v, dict):
+                todo.extend(v.values())
+            elif isinstance(v, (list, tuple)):
+                todo.extend(v)
+            elif hasattr(v, '__dict__') and type(v).__module__.startswith('sdc11073'):
+                todo.append(v)
+    return out
+
+
 def run(ctx):
     cases = all_cases(ctx.quick)
     T = target()
@@ -1038,6 +1128,8 @@ def run(ctx):
     size = 150
     chunks = [cases[i:i + size] for i in range(0, len(cases), size)]
     ctx.pmap(_chunk, chunks, chunksize=1)
+    ckeys = sorted(k for k in T.corpus if k.startswith('consumer'))
+    ctx.pmap(_deferred_chunk, [ckeys[i::4] for i in range(4)], chunksize=1)
     ctx.note('bounds', 'every single mutation (delete, duplicate, rename x3, swap, unexpected child, attribute delete/rename/%d values, '
                        'text x %d values) of every element of every request type; every other action and path; %d DOCTYPE/entity variants at '
                        'every text position; truncation after every tag (quick: every 4th); %d framing variants; %d headers x %d values (quick: on 7 request types); raw bodies of <= %d tokens; '
@@ -1046,6 +1138,9 @@ def run(ctx):
 
 
 def replay(ctx, case):
+    if case.get('kind') == 'deferred':
+        _deferred_chunk(ctx, [case['req']])
+        return {'violations': sorted(ctx.violations)[:10]}
     T = target()
     case = dict(case)
     case['mut'] = tuple(tuple(x) if isinstance(x, list) else x for x in case['mut'])
